@@ -68,6 +68,19 @@ class NDAdapter(Adapter):
                 dim = len(LL)
                 cls = self.H2 if dim == 2 else self.HN
                 o["h"] = cls([self._binning(L, r) for L, r in zip(LL, ri)], keep_missed=keep, axis_names=self._names(dim))
+            elif action == "FromArrays":
+                LL, ri = args
+                dim = len(LL)
+                shape = tuple(len(L) for L in LL)
+                f = np.zeros(shape, dtype=np.int64)
+                for c in np.ndindex(*shape):
+                    f[c] = 1 + sum(c[a] * 4 ** a for a in range(dim))
+                e = 2 * f + 1
+                cls = self.H2 if dim == 2 else self.HN
+                wv = float(self.we.val(1))
+                fa = f if wv == 1 else f * wv
+                ea = e if wv == 1 else e * wv * wv
+                o["h"] = cls([self._binning(L, r) for L, r in zip(LL, ri)], fa, errors2=ea, axis_names=self._names(dim))
             elif action == "Construct":
                 LL, ri, batch, weighted = args
                 dim = len(LL)
@@ -209,6 +222,8 @@ class NDAdapter(Adapter):
                 det["refused"] = {"expected": "an exception", "observed": "accepted"}
         elif obs["exc"] is not None:
             return Mismatch(["accepted"], {"raised": obs["exc"]})
+        if action in REFUSALS and "unchanged_on_refusal" not in view:
+            return Mismatch(sorted(set(bad)), det) if bad else None
         if action in ("Fill", "FindBin") and "ret" in view:
             r = args[-1]
             exp = None if tuple(r) == NONE_RET else tuple(r)
@@ -292,6 +307,8 @@ class NDAdapter(Adapter):
                 kind = "/" + real["h"].dtype.kind
             except Exception:
                 pass
+        if action == "FromArrays":
+            return f"FromArrays/{self._lk(args[0])}"
         if action == "NewEmpty":
             LL, ri, keep = args
             return f"NewEmpty/{self._lk(LL)}/{''.join('TF'[not r] for r in ri)}/{'keep' if keep else 'nokeep'}"
